@@ -13,7 +13,7 @@ from vk.ob import obligation, pick, PARAM
 VALS = ("a", "b", "")
 
 
-@obligation(funcs=["storage.db.Subscription.build_query", "storage.db.Subscription.evaluate_filter"], params=range(3), timeout=(200, 900),
+@obligation(funcs=["storage.db.Subscription.build_query", "storage.db.Subscription.evaluate_filter"], params=range(3), timeout=(350, 1200),
             bounds="wide filter {kinds:[k]} (+ until for PARAM 1,2); narrow = wide plus PARAM 0: a #e condition, 1: since (any "
                    "value incl. since == until), 2: a smaller until; event row with symbolic kind/created_at and one e tag")
 def ob_sql_monotone(kind: int, ts: int, tv: int, k: int, until: int, since: int, v1: int, until2: int) -> str:
